@@ -178,7 +178,7 @@ PROPS = {
         'not_decided': 'header inference on arbitrary select lists (python ast vs JS text spans are different algorithms); behavioural equality of the two reader architectures.',
     },
     'C19': {
-        'rules': only(SK_ALL, 'js') + only(WR_ALL, 'js') + only(CONF_ALL, 'js') + only(AG_ALL, 'js') + only(JN_ALL, 'js') + only(HD_ALL, 'js') + js(ow.rule_ow_mut, ow.rule_ow_fresh, pa.rule_pa_subst, pa.rule_pa_litflow) + one(xp.rule_xp_verdicts, xp.rule_xp_roles),
+        'rules': only(SK_ALL, 'js') + only(WR_ALL, 'js') + only(CONF_ALL, 'js') + only(AG_ALL, 'js') + only(JN_ALL, 'js') + only(HD_ALL, 'js') + js(ow.rule_ow_mut, ow.rule_ow_fresh, ow.rule_ow_selwrap, pa.rule_pa_subst, pa.rule_pa_litflow) + one(xp.rule_xp_verdicts, xp.rule_xp_roles),
         'thorough_rules': only(PA_ALL, 'js') + only(VA_ALL, 'js') + one(xp.rule_rx_xp, xp.rule_xp_keywords),
         'explanation': 'Applies to rbql.js every rule that defines the reference semantics of C01-C05 and C07 (same rule = same semantics): all skeleton rules on the 20 composed JS programs, writer chain, configuration table, aggregates, joins, header rules, and the ownership analysis for the caller\'s arrays; plus cross-port agreement of parser outcomes and class sets.',
         'not_decided': 'meaning of user expressions in two languages.',
